@@ -166,7 +166,10 @@ def refStep (P : Prim) (cfg : RefCfg) (self : Env → Expr → Except Err PVal) 
   | .name id =>
     (match env.lookup id with
      | some v => .ok v
-     | none => refName P cfg id)
+     | none =>
+       -- the documented language has no double-underscore names (in the compiled namespace they are NameErrors)
+       if !cfg.compiled && !(baseKeys.contains id) && hasPrefix "__" id then .error .invalidOp
+       else refName P cfg id)
   | .attr v a =>
     if !cfg.compiled && hasPrefix "__" a then .error .invalidOp
     else do
